@@ -207,7 +207,7 @@ class InstrumentedAsyncServer:
             await self.sio.emit('event_received', (
                 namespace,
                 sid,
-                (event, *args[1:]),
+                [event, *args[1:]],
                 datetime.fromtimestamp(t, timezone.utc).isoformat(),
             ), namespace=self.admin_namespace)
         return await self.sio.__trigger_event(event, namespace, *args)
